@@ -93,6 +93,9 @@ func (r *propRun) runJob(j Job) {
 		return
 	}
 	r.results = append(r.results, res)
+	if res.EngineErrorPaths > 0 {
+		r.infra = append(r.infra, fmt.Sprintf("job %s: %d paths hit an interpreter limitation: %s", j.Name, res.EngineErrorPaths, strings.Join(res.EngineErrors, " | ")))
+	}
 	fmt.Printf("   paths=%d completed=%d infeasible=%d unwind_exceeded=%d steps=%d obligations=%d discharged=%d undecided=%d\n", res.Paths, res.Completed, res.Infeasible, res.Unwind, res.Steps, res.Obligs, res.Discharged, res.Undecided)
 	fmt.Printf("   queries=%d (sat %d, unsat %d, unknown %d) presolved=%d solver=%.1fs wall=%.1fs complete=%v covers=%v\n", res.Queries, res.NSat, res.NUnsat, res.NUnk, res.PreHits, res.SolverTime.Seconds(), res.Wall.Seconds(), res.Complete, res.Covers)
 	if len(res.ViolCounts) > 0 {
